@@ -1,6 +1,15 @@
 import Tx3Proofs.C07
+import Tx3Proofs.C07Reduce
 #print axioms Tx3.Expr.C07_args_fees
 #print axioms Tx3.Expr.C07_args_inputs
 #print axioms Tx3.Expr.C07_fees_inputs
 #print axioms Tx3.Stage.commute_expr
 #print axioms Tx3.C07_apply_commute
+#print axioms Tx3.reduce_nf
+#print axioms Tx3.nf_fix
+#print axioms Tx3.nf_fix_fuel
+#print axioms Tx3.C07_reduce_idempotent
+#print axioms Tx3.C07_reduce_stable
+#print axioms Tx3.C07_reduce_not_idempotent_without_WF
+#print axioms Tx3.C07_stages_preserve_WF
+#print axioms Tx3.C07_reduce_preserves_WF
